@@ -5,6 +5,7 @@ import (
 	"fmt"
 	"go/token"
 	"os"
+	"os/exec"
 	"path/filepath"
 	"runtime/debug"
 	"sort"
@@ -114,6 +115,9 @@ func runProperty(p *Property, tier, repo, verif, goarch string, seed int, overla
 	if fatal != nil {
 		fmt.Printf("FATAL: %v\n", fatal)
 	}
+	if tier == "thorough" && fatal == nil && outDirGlobal == "" {
+		c.selfValidate()
+	}
 	return c.finish(start, seed, fatal)
 }
 
@@ -158,6 +162,37 @@ func doReplay(path, repo, verif string) int {
 	}
 	fmt.Println("obligation no longer exists on this tree")
 	return 0
+}
+
+// selfValidate (thorough tier): run the single-edit mutants of mutants/<id>.json against the current tree
+// through the loader's overlay and record the outcomes. They never change the property's verdict: a mutant
+// that no longer applies to an edited tree is not a violation of the property.
+func (c *Ctx) selfValidate() {
+	tool := filepath.Join(c.VerifDir, "tools", "mutants.py")
+	if _, err := os.Stat(tool); err != nil {
+		c.note("mutant self-validation skipped: %v", err)
+		return
+	}
+	cmd := exec.Command("python3", tool, "-p", c.Prop.ID, "-j", "16", "-v")
+	cmd.Env = append(os.Environ(), "NEPCHECK_REPO="+c.RepoDir)
+	out, err := cmd.CombinedOutput()
+	if err != nil {
+		c.note("mutant self-validation could not run: %v", err)
+	}
+	counts := map[string]int{}
+	var lines []string
+	for _, l := range strings.Split(string(out), "\n") {
+		f := strings.Fields(l)
+		if len(f) >= 2 && f[0] == c.Prop.ID {
+			counts[f[1]]++
+			if len(l) > 160 {
+				l = l[:160]
+			}
+			lines = append(lines, l)
+		}
+	}
+	c.Tables["mutant_self_validation"] = map[string]interface{}{"outcomes": counts, "mutants": lines}
+	fmt.Printf("self-validation (mutants of the current tree, informational): %v\n", counts)
 }
 
 func doDump(spec, repo, verif string) {
